@@ -1390,7 +1390,7 @@ func (r *c14Run) accRow(pl *payloads.GetResponsePayload, g *c14Get, extra func(*
 	for _, o := range obs {
 		r.c.Count(fmt.Sprintf("accessor-outcome:%s", []string{"ok", "error", "panic"}[o.Class]))
 		if o.Class == 2 {
-			r.c.Fail("C14/panic/"+o.Name+"/"+c14Shape(g.Obj), fmt.Sprintf("%s panicked (%s) on a %s object: %s", o.Name, where, c14Shape(g.Obj), o.Msg), cas)
+			r.c.Fail("C14/panic/"+o.Name+"/"+c14ShapeTail(g.Obj), fmt.Sprintf("%s panicked (%s) on a %s object: %s", o.Name, where, c14Shape(g.Obj), o.Msg), cas)
 		}
 	}
 	r.acc = append(r.acc, fmt.Sprintf("(%s, %s, %s)", t.term(), r.p.get(g), c14ObsList(obs)))
@@ -1431,7 +1431,7 @@ func (r *c14Run) wireRow(orig *c14Object, wire string, ver [2]int, pl *payloads.
 		} else if g != nil {
 			what = "decoded object differs"
 		}
-		r.c.Fail(fmt.Sprintf("C14/wire-changed-object/%s/%s", wire, c14Shape(orig)),
+		r.c.Fail(fmt.Sprintf("C14/wire-changed-object/%s/%s", wire, strings.SplitN(c14Shape(orig), "/", 2)[0]),
 			fmt.Sprintf("a %s object whose KeyFormatType designates the populated slot does not survive the %s encoding at %d.%d: %s", c14Shape(orig), wire, ver[0], ver[1], what), cas)
 	}
 	return g
@@ -1591,7 +1591,7 @@ func (r *c14Run) runBuild(bc *c14BuildCase) {
 	if !k.Valid {
 		return
 	}
-	fmtName := fmt.Sprintf("kft=%d/%s", built.KB.Format, bc.Wire)
+	fmtName := fmt.Sprintf("kft=%d", built.KB.Format)
 	byAcc := map[string]c14Obs{}
 	for _, o := range obs {
 		byAcc[o.Acc] = o
